@@ -1494,7 +1494,9 @@ class Interp:
             return VVec([VInt(a + i) for i in range(self.loop_bound)], cnt), env, pc
         a, b = cval(lo.e), cval(hi.e) + (1 if e["inclusive"] else 0)
         if b - a > 64:
-            raise Unsupported("range longer than 64")
+            # a long concrete range: the first loop_bound indices, with the full count (a `for` over it records the
+            # unwinding obligation if more iterations are actually reachable)
+            return VVec([VInt(a + i) for i in range(self.loop_bound)], bv(b - a)), env, pc
         return VVec([VInt(i) for i in range(a, b)]), env, pc
 
     def e_array(self, e, env, pc):
